@@ -163,13 +163,21 @@ example := taylor_fraction (K := ℚ) (-1) 3 (Polynomial.X + Polynomial.C 3) (Po
 
 /-! ### the composition that Driver/C10.lean executes (`iltQsrc T Q ++ ratfunLoop …`, not `ilt pf`)
 
-  The headline theorems `ilt_laplace` / `ilt_inverts` of Props/C10.lean are stated for `ilt pf`; the native driver synthesises
-  the time function with `iltQsrc` (source-text polynomial loop) and `ratfunLoop` (conjugate pairing).  The pieces
-  `improper_deltas_src` and `ratfun_loop_sound` compose to the same statement for the executed model: -/
-theorem driver_model_laplace {K : Type} [Field K] [DecidableEq K] (E : K → K) {J : K} (hJ : J * J = -1) (h20 : (1 + 1 : K) ≠ 0)
-    (conj : K → K) (Q : Poly K) (R : List (K × K × Nat)) (T s : K) (ho : ∀ x ∈ R, 0 < x.2.2) (hn : ∀ x ∈ R, s - x.2.1 ≠ 0) :
-    L E (iltQsrc T Q ++ ratfunLoop J conj T (R.length + 1) R) s = evalPF E ⟨Q, R, T⟩ s := by
-  rw [L_append, (improper_deltas_src E T s Q).2, ratfun_loop_sound E hJ h20 conj T s R ho hn, evalPF]
-  ring
+  Audit finding C10-1: the statement for the executed composition was missing from Props; it is now claimed as
+  `C10.ilt_executed_laplace` / `C10.ilt_executed_inverts` (Props/C10b.lean).  Applied here to concrete data over ℂ
+  (conjugate pair + double real pole, delay 2, polynomial part 2s + 1) and over ℚ with checker-accepted data. -/
+section executed
+attribute [local instance] Classical.propDecidable
+open Complex
+example := ilt_executed_laplace Complex.exp Complex.I_mul_I h20 (starRingEnd ℂ) [1, 2] RC 2 1 ho_RC hn_RC
+theorem hcheckC : pfCheck (K := ℂ) [1] [2, 3, 1] [] [(1, -1, 1), (-1, -2, 1)] [[2, 1], [1, 1]] = true := by
+  norm_num [pfCheck, checkCofs, sumCof, Poly.eqv, Poly.mul, Poly.add, Poly.smul, Poly.linPow]
+example := ilt_executed_inverts Complex.exp Complex.I_mul_I h20 (starRingEnd ℂ) [1] [2, 3, 1] [] [(1, -1, 1), (-1, -2, 1)]
+  [[2, 1], [1, 1]] 2 1 hcheckC (by intro x hx; simp at hx; rcases hx with rfl | rfl <;> norm_num) (by norm_num [Poly.eval])
+end executed
+
+/-- audit finding C10-3: the causal=True output of the executed model is `Causal` and vanishes before t = 0 -/
+example := ilt_causal_output (fun _ : ℚ => 1) 0 id [1, 2] [(3, -1, 2), (1, -2, 1)] 2 (by norm_num) true
+example := (ilt_causal_output (fun _ : ℚ => 1) 0 id [1, 2] [(3, -1, 2), (1, -2, 1)] 0 (le_refl _) false).2.2 (-1) (by norm_num)
 
 end Lcapy.NonVacuity.C10
